@@ -36,7 +36,7 @@ KqDirEntry == NOTE_DELETE + NOTE_RENAME          \* a subdirectory entry of a wa
 (*   ent    : user dir path -> set of [n, kind] entries known to be there  *)
 (*   ws     : Ideal watcher state used for the expected events             *)
 (*   flags  : context for cause signatures (known deviations)              *)
-K0 == [on |-> FALSE, bagmode |-> FALSE, fresh |-> TRUE, failed |-> {}, pend |-> EmptyFn, opt |-> EmptyFn, evc |-> FALSE, errc |-> FALSE, user |-> EmptyFn, ent |-> EmptyFn, flags |-> {}, seq |-> 0, closed |-> FALSE, bad |-> <<>>, tags |-> {}, kfault |-> FALSE, nunw |-> 0]
+K0 == [on |-> FALSE, bagmode |-> FALSE, fresh |-> TRUE, failed |-> {}, pend |-> EmptyFn, opt |-> EmptyFn, evc |-> FALSE, errc |-> FALSE, user |-> EmptyFn, ent |-> EmptyFn, flags |-> {}, seq |-> 0, closed |-> FALSE, bad |-> <<>>, tags |-> {}, kfault |-> FALSE, nunw |-> 0, blind |-> {}, ready |-> {}]
 G0 == [id |-> "", start |-> 0, infra |-> <<>>, events |-> 0, lastobs |-> [nfd |-> -1, npath |-> -1, nbyuser |-> -1, nseen |-> -1], drift |-> <<>>]
 
 Init == l = 1 /\ K = K0 /\ g = G0 /\ TLCSet(1, 1) /\ TLCSet(3, EmptyFn)
@@ -69,6 +69,10 @@ EN(u, n) == IF u = <<".">> THEN <<n>> ELSE Append(u, n)
 \* user watches whose directory (really) is dir
 DirWatches(k, dir) == {u \in DOMAIN k.user : k.user[u].isdir /\ k.user[u].real = dir}
 Known(k, u, n) == \E e \in k.ent[u] : e.n = n
+\* An entry that could not be opened when its directory was added (unreadable for an unprivileged owner) cannot be watched:
+\* nothing is reported for it (k.blind) until it can be opened (k.ready) and the directory changes again - the next scan
+\* of the directory covers it.
+Covered(k, u, n) == Known(k, u, n) /\ EN(u, n) \notin k.blind
 KindIn(k, u, n) == (CHOOSE e \in k.ent[u] : e.n = n).kind
 AddEnt(k, u, n, kind) == [k EXCEPT !.ent[u] = {e \in @ : e.n # n} \cup {[n |-> n, kind |-> kind]}]
 DelEnt(k, u, n) == [k EXCEPT !.ent[u] = {e \in @ : e.n # n}]
@@ -91,20 +95,21 @@ ApplyOp1(k, o) ==
          ForAll(k, DW, LAMBDA kk, u : IF o.op = "mkfifo" THEN [kk EXCEPT !.flags = @ \cup {"fifo_entry"}]
                                       ELSE AddEnt(Expect(kk, EN(u, n), OpCreate), u, n, o.kind))
     [] o.op = "write" ->
-         LET names == {EN(u, n) : u \in {u \in DW : Known(k, u, n) /\ KindIn(k, u, n) # "dir"}} \cup FileWatches(k, p) IN
+         LET names == {EN(u, n) : u \in {u \in DW : Covered(k, u, n) /\ KindIn(k, u, n) # "dir"}} \cup FileWatches(k, p) IN
          ForAll(k, names, LAMBDA kk, nm : Expect(kk, nm, OpWrite))
-    [] o.op \in {"chmod", "trunc"} ->
-         LET names == {EN(u, n) : u \in {u \in DW : Known(k, u, n) /\ KindIn(k, u, n) # "dir"}} \cup FileWatches(k, p) \cup DirWatches(k, p) IN
-         ForAll(k, names, LAMBDA kk, nm : Expect(kk, nm, OpChmod))
+    [] o.op \in {"chmod", "trunc", "unreadable", "readable"} ->
+         LET names == {EN(u, n) : u \in {u \in DW : Covered(k, u, n) /\ KindIn(k, u, n) # "dir"}} \cup FileWatches(k, p) \cup DirWatches(k, p)
+             k1 == ForAll(k, names, LAMBDA kk, nm : Expect(kk, nm, OpChmod)) IN
+         IF o.op = "readable" THEN [k1 EXCEPT !.ready = @ \cup ({EN(u, n) : u \in DW} \cap k.blind)] ELSE k1
     [] o.op \in {"unlink", "rmdir"} ->
          \* one event per watched *path* (a user watch on an entry of a watched directory shares its descriptor)
          LET ents == {u \in DW : Known(k, u, n)}
-             names == {EN(u, n) : u \in ents} \cup FileWatches(k, p) \cup DirWatches(k, p)
+             names == {EN(u, n) : u \in {x \in ents : Covered(k, x, n)}} \cup FileWatches(k, p) \cup DirWatches(k, p)
              k1 == ForAll(k, names, LAMBDA kk, nm : Expect(kk, nm, OpRemove))
              k2 == ForAll(k1, ents, LAMBDA kk, u : DelEnt(kk, u, n))
              gone == FileWatches(k, p) \cup DirWatches(k, p)
          IN [k2 EXCEPT !.user = Without(@, gone), !.ent = Without(@, gone \cap DOMAIN k2.ent)]
-    [] o.op = "rename" ->
+    [] o.op \in {"rename", "rename2"} ->
          LET q == <<"/">> \o o.to  d2 == Parent(q)  n2 == Base(q)
              DW2 == DirWatches(k, d2)
              outs == {u \in DW : Known(k, u, n)}                \* leaving: Rename of the old name
@@ -114,13 +119,16 @@ ApplyOp1(k, o) ==
              \* a watched single file that is replaced: Remove and Create, and the watch stays on the new file
              \* (the repository's recorded kqueue expectation, testdata/watch-file/overwrite-watched-file)
              tself == FileWatches(k, q)
+             \* a watched (empty) directory that is replaced by rename(2): Remove, and its watch ends
+             dvict == DirWatches(k, q)
              evs == {<<EN(u, n), OpRename>> : u \in outs} \cup {<<u, OpRename>> : u \in self}
                     \cup {<<EN(u, n2), OpRemove>> : u \in ovw} \cup {<<EN(u, n2), OpCreate>> : u \in ovw \cup ins}
                     \cup {<<u, OpRemove>> : u \in tself} \cup {<<u, OpCreate>> : u \in tself}
+                    \cup {<<u, OpRemove>> : u \in dvict}
              k1 == IF evs = {} THEN k ELSE ExpectBag(k, SetToSeq(evs))
              k2 == ForAll(k1, outs, LAMBDA kk, u : DelEnt(kk, u, n))
              k3 == ForAll(k2, DW2, LAMBDA kk, u : AddEnt(kk, u, n2, o.kind))
-             k4 == [k3 EXCEPT !.user = Without(@, self), !.ent = Without(@, self \cap DOMAIN k3.ent),
+             k4 == [k3 EXCEPT !.user = Without(@, self \cup dvict), !.ent = Without(@, (self \cup dvict) \cap DOMAIN k3.ent),
                               !.flags = @ \cup (IF \E u \in DirWatches(k, p) : k.ent[u] # {} THEN {"watched_dir_renamed"} ELSE {})
                                           \cup (IF FileWatches(k, q) # {} THEN {"file_watch_replaced"} ELSE {})]
          IN IF Cardinality(evs) > 1 THEN KTag(k4, "multi_event_op") ELSE k4
@@ -134,7 +142,12 @@ ApplyOp(k0, o) ==
   \* only an operation made on a drained stream is ordered with respect to what follows.
   LET R == ApplyOp1([k0 EXCEPT !.bagmode = @ \/ ~k0.fresh \/ Cardinality(DirWatches(k0, Parent(<<"/">> \o o.p)) \cup FileWatches(k0, <<"/">> \o o.p)
                                                             \cup DirWatches(k0, <<"/">> \o o.p)) > 1], o)
-  IN [R EXCEPT !.bagmode = k0.bagmode, !.fresh = FALSE]
+      \* the directory is scanned again when it changes: entries that can be opened by now are covered from here on
+      changed == IF o.op \in {"create", "mkdir", "symlink", "mkfifo", "unlink", "rmdir", "rename", "rename2"}
+                 THEN DirWatches(k0, Parent(<<"/">> \o o.p)) \cup (IF o.op \in {"rename", "rename2"} THEN DirWatches(k0, Parent(<<"/">> \o o.to)) ELSE {})
+                 ELSE {}
+      seen == {x \in R.ready : \E u \in changed : Len(x) > 0 /\ x = EN(u, x[Len(x)])}
+  IN [R EXCEPT !.bagmode = k0.bagmode, !.fresh = FALSE, !.blind = @ \ seen, !.ready = @ \ seen]
 
 \* ---- a burst made faster than the reader wakes up ---------------------------------
 (* All operations of the burst precede the first retrieval.  The kernel facts are taken from the trace line: the    *)
@@ -160,7 +173,9 @@ BurstAtomic(k0, ln) ==
       files == (DOMAIN k0.user) \ dirs
       OneDir(k, u) ==
         LET E == k.ent[u]
-            F == FinalOf(ln, k.user[u].real)
+            \* (a watched directory that was itself removed or renamed in the burst: whatever is at its path afterwards - a new
+            \*  directory of the same name, perhaps - is not this watch's business)
+            F == IF Gone(u) THEN {} ELSE FinalOf(ln, k.user[u].real)
             hit == {e \in E : e.kind # "fifo" /\ KqueueOpOf(NoteOf(ns, EN(u, e.n))) # 0}
             k1 == ForAll(k, hit, LAMBDA kk, e : Expect(kk, EN(u, e.n), KqueueOpOf(NoteOf(ns, EN(u, e.n)))))
             new == {f \in F : (~\E e \in E : e.n = f.n) \/ Gone(EN(u, f.n))}
@@ -237,6 +252,7 @@ CallK(k, c) ==
                        k1 == [k EXCEPT !.user = (P :> [real |-> real, isdir |-> isdir]) @@ @,
                                        !.ent = IF isdir /\ P \notin DOMAIN k.ent
                                                THEN (P :> {[n |-> c.entries[i].n, kind |-> c.entries[i].kind] : i \in 1..Len(c.entries)}) @@ @ ELSE @,
+                                       !.blind = @ \cup (IF isdir THEN {EN(P, c.entries[i].n) : i \in {j \in 1..Len(c.entries) : c.entries[j].unreadable}} ELSE {}),
                                        !.flags = @ \cup (IF c.lkind = "symlink" THEN {"symlink_watch"} ELSE {})
                                                    \cup (IF \E i \in 1..Len(c.entries) : c.entries[i].kind \in {"fifo", "symlink"} THEN {"special_entry"} ELSE {})]
                    IN KTag(k1, IF isdir THEN "dir_watch" ELSE "file_watch")
@@ -316,7 +332,7 @@ Drain == /\ IsKind("drain")
 ObsK(k, o) ==
   LET fdset == {o.fds[i].fd : i \in 1..Len(o.fds)}
       wdset == {o.wds[i] : i \in 1..Len(o.wds)}
-      want  == DOMAIN k.user \cup UNION {{EN(u, e.n) : e \in {x \in k.ent[u] : x.kind # "fifo"}} : u \in DOMAIN k.ent}
+      want  == (DOMAIN k.user \cup UNION {{EN(u, e.n) : e \in {x \in k.ent[u] : x.kind # "fifo"}} : u \in DOMAIN k.ent}) \ k.blind
       idle  == o.rd = "sync.Cond.Wait" /\ o.pendingnotes = 0
   IN
   IF k.closed THEN
@@ -354,9 +370,10 @@ Crash == /\ IsKind("crash")
          /\ IF Line.go THEN K' = KBad(K, {"C17", "C18"}, "crash:" \o Line.cls) /\ g' = g
                        ELSE K' = K /\ g' = Infra("worker died without a Go panic, fatal error or race report (" \o Line.cls \o ")")
          /\ Next1
+Unpriv == /\ IsKind("unpriv") /\ K' = KTag(K, "unprivileged_owner") /\ g' = g /\ Next1
 Other == /\ l <= Len(Trace) /\ Line.k \in {"bad"} /\ K' = K /\ g' = Infra("bad step") /\ Next1
 
-Next == (Reset \/ End \/ New \/ Fs \/ Call \/ Recv \/ Drain \/ Obs \/ Kmodel \/ Hold \/ Kfault \/ Crash \/ Other)
+Next == (Reset \/ End \/ New \/ Fs \/ Call \/ Recv \/ Drain \/ Obs \/ Kmodel \/ Hold \/ Kfault \/ Unpriv \/ Crash \/ Other)
         /\ TLCSet(1, IF TLCGet(1) > l' THEN TLCGet(1) ELSE l')
 Spec == Init /\ [][Next]_vars
 
